@@ -378,6 +378,138 @@ Section DapProofs.
     (reset_lcp = false -> no_self_loop) -> disciplined StateHeld tr (init c0) = true -> bp_ok StateHeld tr (init c0) false = true.
   Proof. intros. apply bp_run; auto. apply K_init. Qed.
 
+  (* ------------------------------------------------------------------ breakpoints replaced during a free run *)
+  Notation bp_ok_live := (bp_ok_live cpu pc step fin step_over step_out reset_lcp).
+  Notation steps_when_stopped := (steps_when_stopped cpu pc step fin step_over step_out reset_lcp).
+
+  Definition KL (s : st) (seen exempt : bool) : Prop :=
+    G s /\
+    (ml s = MChecked -> hit (bps s) (pc (cp s)) = true -> seen = true \/ exempt = true) /\
+    (ml s <> MChecked -> conn s = true -> lcp s = Some (pc (cp s)) -> in_step s = false -> seen = true) /\
+    (forall p, rs s = Stopped p -> in_step s = false -> seen = true) /\
+    ((in_step s = true \/ exists k, sl s = SStepExec k) -> exists p, rs s = Stopped p) /\
+    (ml s = MChecked -> lcp s = Some (pc (cp s))) /\
+    ((ml s = MRead \/ ml s = MChecked) -> conn s = true).
+
+  Lemma KL_init : forall c, KL (init c) false false.
+  Proof.
+    intro c. unfold KL. split; [apply G_init|]. unfold init, in_step; simpl.
+    repeat split; intros; try discriminate; auto;
+      try (destruct H as [H|[k H]]; discriminate); try (destruct H; discriminate).
+  Qed.
+
+  Definition step_ok_live (a : action) (s : st) : Prop :=
+    match a with
+    | S_req (RStep _) => exists p, rs s = Stopped p
+    | _ => True
+    end.
+
+  Definition violated_live (a : action) (s : st) (seen exempt : bool) : bool :=
+    match a with
+    | M_execute => negb (fin (cp s)) && hit (bps s) (pc (cp s)) && negb seen && negb exempt
+    | _ => false
+    end.
+
+  Definition exempt_next (a : action) (s : st) (exempt : bool) : bool :=
+    match a with
+    | M_execute => false
+    | S_set_bps => exempt || match ml s with MChecked => true | _ => false end
+    | _ => exempt
+    end.
+
+  Lemma KL_step : forall a s s' o seen exempt,
+    (reset_lcp = false -> no_self_loop) -> KL s seen exempt -> step_ok_live a s -> step_act StateHeld a s = Some (s', o) ->
+    violated_live a s seen exempt = false /\ KL s' (seen_next a s s' seen) (exempt_next a s exempt).
+  Proof.
+    intros a s s' o seen exempt NSL HK Hok H.
+    destruct HK as [HG [K1 [K2 [K3 [K4 [K5 K9]]]]]].
+    pose proof (G_step a s s' o HG H) as HG'.
+    destruct HG as [G1 [G2 G3]].
+    destruct s as [rs0 cp0 bps0 conn0 chan0 ml0 lcp0 sl0].
+    unfold KL, violated_live, exempt_next, seen_next, changes_cpu, publishes_here, in_step in *; simpl in *.
+    Ltac lcase K1 K2 K3 K4 K9 :=
+      repeat split; intros; auto; try discriminate; try congruence;
+      try (match goal with H : _ = _ \/ _ = _ |- _ => destruct H; discriminate end);
+      try (match goal with H : _ \/ _ |- _ => destruct H as [H|[? H]]; try discriminate; try congruence end);
+      try (match goal with H : exists _, _ |- _ => destruct H as [? H]; try discriminate; try congruence end);
+      try solve [apply K1; auto | apply K2; auto; discriminate | eapply K3; eauto | apply K4; auto | apply K9; auto | eauto].
+    destruct a; simpl in H; simpl in Hok.
+    - (* M_read_state *)
+      break_in H; inv_some; simpl; rewrite ?stopped_false, ?Bool.andb_false_r; (split; [reflexivity|]); (split; [exact HG'|]); lcase K1 K2 K3 K4 K9.
+      all: try (apply Bool.negb_false_iff; assumption).
+    - (* M_check_bp *)
+      break_in H; inv_some.
+      assert (RR : rs0 = Running) by (apply G1; auto). subst rs0.
+      assert (CN : conn0 = true) by (apply K9; auto).
+      assert (NS : match sl0 with SPauseRead (RStep _) | SPausePublish (RStep _) _ => true | _ => false end = false).
+      { destruct (match sl0 with SPauseRead (RStep _) | SPausePublish (RStep _) _ => true | _ => false end) eqn:E; auto.
+        destruct K4 as [p Hp]; auto. discriminate. }
+      unfold do_check_bp in *; simpl in *.
+      destruct (opt_eqb lcp0 (pc cp0)) eqn:E; simpl in *.
+      + apply opt_eqb_true in E. (split; [reflexivity|]); (split; [exact HG'|]); lcase K1 K2 K3 K4 K9.
+        left. apply K2; auto; discriminate.
+      + destruct (hit bps0 (pc cp0)) eqn:Eh; simpl in *; rewrite ?Z.eqb_refl; simpl;
+          (split; [reflexivity|]); (split; [exact HG'|]); lcase K1 K2 K3 K4 K9.
+    - (* M_execute *)
+      break_in H; inv_some.
+      assert (RR : rs0 = Running) by (apply G1; auto). subst rs0.
+      unfold do_execute in *; simpl in *.
+      destruct (fin cp0) eqn:Ef; simpl in *.
+      + (split; [reflexivity|]); (split; [exact HG'|]); lcase K1 K2 K3 K4 K9.
+      + split.
+        { destruct (hit bps0 (pc cp0)) eqn:Eh; simpl; auto.
+          destruct (K1 eq_refl eq_refl) as [A|A]; rewrite A; simpl; auto. destruct seen; auto. }
+        (split; [exact HG'|]); lcase K1 K2 K3 K4 K9.
+        destruct reset_lcp; [discriminate|].
+        exfalso. apply (proj1 (Z.eqb_neq _ _) (NSL eq_refl cp0 Ef)). rewrite K5 in *; auto. congruence.
+    - (* S_req *)
+      break_in H; inv_some; destruct r; simpl in *; rewrite ?stopped_false, ?Bool.andb_false_r; (split; [reflexivity|]); (split; [exact HG'|]); lcase K1 K2 K3 K4 K9.
+    - break_in H; inv_some; simpl; rewrite ?stopped_false, ?Bool.andb_false_r; (split; [reflexivity|]); (split; [exact HG'|]); lcase K1 K2 K3 K4 K9.
+    - break_in H; inv_some; simpl; rewrite ?stopped_false, ?Bool.andb_false_r; (split; [reflexivity|]); (split; [exact HG'|]); lcase K1 K2 K3 K4 K9.
+    - (* S_set_bps *)
+      break_in H; inv_some; simpl; rewrite ?stopped_false, ?Bool.andb_false_r; (split; [reflexivity|]); (split; [exact HG'|]); lcase K1 K2 K3 K4 K9.
+      right. subst. apply Bool.orb_true_r.
+    - break_in H; inv_some; simpl; rewrite ?stopped_false, ?Bool.andb_false_r; (split; [reflexivity|]); (split; [exact HG'|]); lcase K1 K2 K3 K4 K9.
+    - break_in H; inv_some; simpl; rewrite ?stopped_false, ?Bool.andb_false_r; (split; [reflexivity|]); (split; [exact HG'|]); lcase K1 K2 K3 K4 K9.
+    - break_in H; inv_some; simpl; rewrite ?stopped_false, ?Bool.andb_false_r; (split; [reflexivity|]); (split; [exact HG'|]); lcase K1 K2 K3 K4 K9.
+    - break_in H; inv_some; simpl; rewrite ?stopped_false, ?Bool.andb_false_r; (split; [reflexivity|]); (split; [exact HG'|]); lcase K1 K2 K3 K4 K9.
+    - break_in H; inv_some; simpl; rewrite ?stopped_false, ?Bool.andb_false_r; (split; [reflexivity|]); (split; [exact HG'|]); lcase K1 K2 K3 K4 K9.
+    - (* S_step_exec *)
+      break_in H; inv_some; simpl; (split; [reflexivity|]); (split; [exact HG'|]).
+      assert (ST : exists p, rs0 = Stopped p) by (apply K4; right; eauto).
+      destruct ST as [p0 ST]. subst rs0.
+      lcase K1 K2 K3 K4 K9; try solve [exfalso; assert (Stopped p0 = Running) by (apply G1; auto); discriminate].
+    - (* S_pause_read_pc *)
+      break_in H; inv_some; simpl; rewrite ?Z.eqb_refl; simpl; (split; [reflexivity|]); (split; [exact HG'|]);
+        lcase K1 K2 K3 K4 K9.
+    - (* S_pause_publish *)
+      break_in H; inv_some. exfalso. eapply G3; eauto.
+    - (* S_event *) break_in H; inv_some; simpl; rewrite ?stopped_false, ?Bool.andb_false_r; (split; [reflexivity|]); (split; [exact HG'|]); lcase K1 K2 K3 K4 K9.
+    - (* P_poll *) break_in H; inv_some; simpl; rewrite ?stopped_false, ?Bool.andb_false_r; (split; [reflexivity|]); (split; [exact HG'|]); lcase K1 K2 K3 K4 K9.
+  Qed.
+
+  Lemma bp_live_run : forall tr s seen exempt,
+    (reset_lcp = false -> no_self_loop) -> KL s seen exempt -> steps_when_stopped StateHeld tr s = true ->
+    bp_ok_live StateHeld tr s seen exempt = true.
+  Proof.
+    induction tr; simpl; intros s seen exempt NSL HK HD; auto.
+    destruct (step_act StateHeld a s) as [[s1 o]|] eqn:E; auto.
+    assert (Hok : step_ok_live a s).
+    { unfold step_ok_live. destruct a; auto. destruct r; auto. destruct (rs s); try discriminate. eauto. }
+    destruct (KL_step a s s1 o seen exempt NSL HK Hok E) as [V HK'].
+    assert (HD' : steps_when_stopped StateHeld tr s1 = true).
+    { destruct a; auto. destruct r; auto; destruct (rs s); auto; discriminate. }
+    unfold violated_live in V. unfold seen_next, exempt_next in HK'.
+    apply andb_true_intro. split.
+    - destruct a; auto. rewrite V. reflexivity.
+    - apply IHtr; auto.
+  Qed.
+
+  Theorem bp_no_overrun_live : forall c0 tr,
+    (reset_lcp = false -> no_self_loop) -> steps_when_stopped StateHeld tr (init c0) = true ->
+    bp_ok_live StateHeld tr (init c0) false false = true.
+  Proof. intros. apply bp_live_run; auto. apply KL_init. Qed.
+
   (* ------------------------------------------------------------------ the session thread survives every request *)
   Definition no_launch_event (e : mevent) : Prop :=
     match e with RSC Launching _ => False | RSC _ Launching => False | _ => True end.
@@ -483,6 +615,12 @@ Lemma bp_no_overrun_adapter : forall (cpu : Type) (pc : cpu -> Z) (step : cpu ->
   disciplined cpu pc step fin step_over step_out adapter_reset_lcp adapter_protocol tr (init c0) = true ->
   bp_ok cpu pc step fin step_over step_out adapter_reset_lcp adapter_protocol tr (init c0) false = true.
 Proof. intros. apply bp_no_overrun; auto. intro H0. discriminate H0. Qed.
+
+Lemma bp_no_overrun_live_adapter : forall (cpu : Type) (pc : cpu -> Z) (step : cpu -> cpu) (fin : cpu -> bool)
+    (step_over step_out : cpu -> cpu) (c0 : cpu) (tr : list action),
+  steps_when_stopped cpu pc step fin step_over step_out adapter_reset_lcp adapter_protocol tr (init c0) = true ->
+  bp_ok_live cpu pc step fin step_over step_out adapter_reset_lcp adapter_protocol tr (init c0) false false = true.
+Proof. intros. apply bp_no_overrun_live; auto. intro H0. discriminate H0. Qed.
 
 Lemma event_table_ok : forall e : mevent, event_of e = gen_event_of e.
 Proof. intros [[| |p] [| |q]| |]; reflexivity. Qed.
